@@ -41,7 +41,7 @@ class State:
                   0x10: bytearray(b"\xE7" * 5)}
         self.ce = False
         self.user0 = None
-        self.irq_dontcare = False  # non-plus carrier path
+        self.cfg_mask = 0xFF  # CONFIG bits that are judged (non-plus carrier path narrows it)
         # EN_CRC was written 0 while EN_AA forced it to 1 (A5): whether the forced bit is
         # latched by a later read-modify-write is chip-dependent -> don't care until the
         # next crc assignment
@@ -326,7 +326,7 @@ def alternatives(s, op, plus=True):
             r[4] = 0
             n.a[0x10][:] = b"\xFF" * 5
             r[0] = 0x73
-            n.irq_dontcare = True
+            n.cfg_mask = 0x0F
         return same
     if name == "stop_carrier_wave":
         r[0] &= ~2
@@ -334,6 +334,7 @@ def alternatives(s, op, plus=True):
         n.ce = False
         if n.carrier_dirty is not None:
             n.carrier_dirty.r[0] &= ~2
+            n.cfg_mask = 0x02  # documented: the chip sleeps; the rest is restored by `with`
         return same
     if name == "noop":
         return same
